@@ -137,8 +137,8 @@ theorem enabled_iff_threshold (c : Levels) (p lvl : Nat) :
 /-- `fastcheck` never rejects what the filter would accept. -/
 theorem enabled_implies_fastcheck (c : Levels) (pkg : Option Nat) (lvl : Nat)
     (h : enabled c pkg lvl = true) : fastcheck c lvl = true := by
+  rw [fastcheck_iff]
   unfold enabled at h
-  unfold fastcheck
   cases ha : c.active <;> simp_all
 
 /-- A goroutine's log of accepted lines grows only by a filter step that found the line enabled under
@@ -147,7 +147,8 @@ theorem filtered_never_accepted {s s' : St} {a : Act} (hs : step s a = some s') 
     s'.logged p = s.logged p ∨
     ∃ l, s'.logged p = s.logged p ++ [l] ∧
       ((∃ pkg, a = .p p (.filter true) ∧ s.prods p = .inLog l pkg ∧ enabled s.lv pkg l.lvl = true) ∨
-       (a = .p p (.submit l) ∧ l.trace.isSome)) := by
+       (a = .p p (.submit l) ∧ l.trace.isSome ∧
+          ∃ t, s.tr p = some t ∧ submitLine (t.logs.map (·.e)) = some l)) := by
   cases a with
   | p pid e =>
     by_cases hp : p = pid
@@ -161,6 +162,8 @@ theorem filtered_never_accepted {s s' : St} {a : Act} (hs : step s a = some s') 
     left
     cases e <;> simp only [step] at hs <;> (repeat' split at hs) <;> (try cases hs) <;> rfl
   | wforce pid => left; simp only [step] at hs; (repeat' split at hs) <;> (try cases hs) <;> rfl
+  | addTracer pid pkg live => left; simp only [step] at hs; (repeat' split at hs) <;> (try cases hs) <;> rfl
+  | collect pid e pkg => left; simp only [step] at hs; (repeat' split at hs) <;> (try cases hs) <;> rfl
   | trigger => left; simp only [step] at hs; (repeat' split at hs) <;> (try cases hs) <;> rfl
   | setLevel g => left; simp only [step] at hs; cases hs; rfl
   | setPkgs m => left; simp only [step] at hs; cases hs; rfl
@@ -361,6 +364,12 @@ theorem checkProd_complete (gid : Nat) {es : List Item} {got : List Got} (h : Co
     checkProd gid es got = .pass :=
   PB.Log.checkProd_complete gid h
 
+/-- The line-by-line reading of "messages below the level in force are never emitted" that `checkRun` applies
+    first (it names the offending line instead of the place where the walk along the items gets stuck) rejects
+    nothing the specification allows. -/
+theorem filtered_precheck_complete {es : List Item} {got : List Got} (h : Conforms es got) :
+    ∀ g ∈ got, neverAllowed es g = false := conforms_line_allowed h
+
 /-- The exact decision procedure behind it. -/
 theorem conformsB_iff (es : List Item) (got : List Got) : conformsB es got = true ↔ Conforms es got :=
   PB.Log.conformsB_iff es got
@@ -392,6 +401,153 @@ theorem submit_none_iff (logs : List Entry) : submitLine logs = none ↔ logs = 
     simp
     intro h; subst h; simp at hg
 
+/-- `AddTracer` at trace level, `SetLogLevel(error)`, then a Debug line through the tracer, `Submit`. -/
+def demoRaise : List Act :=
+  [.addTracer 0 (some 0) true, .setLevel 5, .collect 0 ⟨7, 2, 1, 30⟩ (some 0), .p 0 (.submit ⟨7, 2, 1, 30, some []⟩)]
+
+/-- Package 0 has level trace, package 1 no entry (global level info): package 0 creates the tracer, package 1
+    logs a Debug line through it. -/
+def demoOther : List Act :=
+  [.addTracer 0 (some 0) true, .collect 0 ⟨7, 2, 1, 30⟩ (some 1), .p 0 (.submit ⟨7, 2, 1, 30, some []⟩)]
+
+/-! ### The level decisions taken outside `log()`: `fastcheck`, which severity a function asks about, `AddTracer`
+
+A live context tracer collects every call unconditionally (`tracer.log`) and `Submit` enqueues the collection
+without a level check: for lines that go through a tracer the ONLY level decision is the one `AddTracer` takes.
+`PB.Gen.Log.fastcheck`, `PB.Gen.Log.addTracer` and `PB.Gen.Log.levelCalls` are regenerated from log/input.go and
+log/trace.go on every run; the theorems below say what they must be. -/
+
+/-- `fastcheck` lets a call through iff package levels are active (then `log()` decides) or the severity is at
+    or above the global level. -/
+theorem fastcheck_decision (c : Levels) (lvl : Nat) :
+    fastcheck c lvl = true ↔ (c.active = true ∨ c.glob ≤ lvl) := fastcheck_iff c lvl
+
+/-- Every exported logging function (`Trace` … `Criticalf`) and every logging method of `*ContextTracer` asks
+    `fastcheck` about ITS OWN severity — the one it is named after —, passes that severity to `log()` and, on a
+    live tracer, collects at that severity; and that severity is one of the `Severity` constants. (A function
+    that pre-checks another severity than it logs at drops enabled lines or lets `log()` do all the filtering.) -/
+theorem every_function_asks_about_its_own_severity :
+    ∀ r ∈ PB.Gen.Log.levelCalls,
+      r.2.2.1 = ownSeverity r.2.1 ∧ r.2.2.2.1 = ownSeverity r.2.1 ∧
+      ((r.1 = "" ∧ r.2.2.2.2 = "") ∨ (r.1 = "ContextTracer" ∧ r.2.2.2.2 = ownSeverity r.2.1)) ∧
+      ownSeverity r.2.1 ∈ PB.Gen.Log.severities.map (·.1) := by decide
+
+/-- The table is complete: for every severity there are the plain and the formatting function, as package
+    functions and as tracer methods (and nothing else takes such a decision: the extractor refuses any other
+    function of input.go / trace.go that calls `fastcheck`, `log` or `tracer.log`). -/
+theorem every_severity_has_its_functions :
+    ∀ c ∈ PB.Gen.Log.severities, ∀ recv ∈ ["", "ContextTracer"],
+      ((PB.Gen.Log.levelCalls.filter (fun r => r.1 == recv && r.2.2.1 == c.1)).map (·.2.1)).length = 2 ∧
+      PB.Gen.Log.levelCalls.length = 4 * PB.Gen.Log.severities.length := by decide
+
+/-- The lowest severity is Trace: whatever a tracer collects is at or above it. -/
+theorem trace_is_lowest_severity (lvl : Nat) (h : isSeverity lvl = true) : PB.Gen.Log.traceLevel ≤ lvl :=
+  isSeverity_ge h
+
+/-- `AddTracer` (non-nil context without a tracer, caller known) hands out a live tracer iff Trace is enabled
+    for the caller's origin under the levels in force — by exactly the filter `log()` applies to a Trace line. -/
+theorem tracer_iff_trace_enabled (c : Levels) (pkg : Option Nat) :
+    addTracer c false true pkg false = true ↔ enabled c pkg PB.Gen.Log.traceLevel = true :=
+  addTracer_iff c pkg
+
+/-- The same with the level in force stated declaratively: a tracer is handed out iff the level in force for
+    the caller's origin (its package level if package levels are active and it has one, the global level
+    otherwise) is at or below Trace. -/
+theorem tracer_iff_trace_in_force (c : Levels) (p : Nat) :
+    addTracer c false true (some p) false = true ↔ threshold c p ≤ PB.Gen.Log.traceLevel := by
+  rw [addTracer_iff, enabled_iff_threshold]
+
+/-- Case by case — the three states of the package levels: inactive → the global level decides; active and the
+    caller's package listed → its own level decides, whatever the global level is; active and the caller's
+    package NOT listed → the global level decides again (`fastcheck` has not looked at it: it returns true as
+    soon as package levels are active). -/
+theorem tracer_decision_by_package_state (c : Levels) (p : Nat) :
+    (c.active = false → (addTracer c false true (some p) false = true ↔ c.glob ≤ PB.Gen.Log.traceLevel)) ∧
+    (∀ v, c.active = true → lookupPkg c.pkgs p = some v →
+      (addTracer c false true (some p) false = true ↔ v ≤ PB.Gen.Log.traceLevel)) ∧
+    (c.active = true → lookupPkg c.pkgs p = none →
+      (addTracer c false true (some p) false = true ↔ c.glob ≤ PB.Gen.Log.traceLevel)) := by
+  refine ⟨?_, ?_, ?_⟩
+  · intro h; rw [tracer_iff_trace_in_force]; simp [threshold, h]
+  · intro v h hl; rw [tracer_iff_trace_in_force]; simp [threshold, h, hl]
+  · intro h hl; rw [tracer_iff_trace_in_force]; simp [threshold, h, hl]
+
+/-- No tracer for a nil context, for a context that already carries one, and — package levels active — when
+    the caller cannot be determined (`runtime.Caller` fails, file path without a directory). -/
+theorem tracer_refused (c : Levels) (ok : Bool) (pkg : Option Nat) (ex : Bool) :
+    addTracer c true ok pkg ex = false ∧ addTracer c false ok pkg true = false ∧
+      (c.active = true → addTracer c false false pkg ex = false) ∧
+      (c.active = true → addTracer c false ok none ex = false) :=
+  addTracer_refuses c ok pkg ex
+
+/-- In every reachable state a live tracer was created while Trace was enabled for the origin that called
+    `AddTracer`, under the levels in force at that moment. -/
+theorem live_tracer_was_created_at_trace_level {s : St} (h : Reachable s) (p : Nat) (t : Tracer)
+    (ht : s.tr p = some t) : enabled t.lv t.pkg PB.Gen.Log.traceLevel = true :=
+  ((tcinv_reachable h).c1 p t ht).1
+
+/-- Hence a submission never carries a line below the level that was in force, for the origin of its
+    `AddTracer` call, WHEN THE TRACER WAS CREATED: every line it carries (collected entries and main line)
+    passes the filter of `log()` under those levels. -/
+theorem submission_lines_at_or_above_creation_level {s : St} (h : Reachable s) (p : Nat) (sb : Sub)
+    (hsb : sb ∈ s.subs p) : ∀ e ∈ sb.line.entries, enabled sb.tr.lv sb.tr.pkg e.lvl = true := by
+  obtain ⟨⟨hen, hsev⟩, hsub⟩ := (tcinv_reachable h).c2 p sb hsb
+  intro e he
+  rw [(submit_carries_all _ _ hsub).1] at he
+  obtain ⟨x, hx, rfl⟩ := List.mem_map.mp he
+  exact enabled_mono hen (isSeverity_ge (hsev x hx))
+
+/-- The tracer lines a goroutine got accepted are exactly its submissions, in order (plain calls never carry
+    a tracer: every logging function passes `nil` to `log()`). -/
+theorem tracer_lines_are_submissions {s : St} (h : Reachable s) (p : Nat) :
+    (s.logged p).filter (·.trace.isSome) = (s.subs p).map (·.line) := (tcinv_reachable h).c3 p
+
+/-- Whatever tracer line reaches the adapter is such a submission: all the lines it carries were at or above
+    the level in force at the creation of its tracer. -/
+theorem written_tracer_lines_respect_creation_level {s : St} (h : Reachable s) (l : Line)
+    (hl : l ∈ expand s.out) (ht : l.trace.isSome = true) :
+    ∃ p sb, sb ∈ s.subs p ∧ sb.line = l ∧ ∀ e ∈ l.entries, enabled sb.tr.lv sb.tr.pkg e.lvl = true := by
+  obtain ⟨p, hp⟩ := written_lines_were_accepted h l hl
+  have hm : l ∈ (s.subs p).map (·.line) := by
+    rw [← tracer_lines_are_submissions h p]; exact List.mem_filter.mpr ⟨hp, ht⟩
+  obtain ⟨sb, hsb, rfl⟩ := List.mem_map.mp hm
+  exact ⟨p, sb, hsb, rfl, submission_lines_at_or_above_creation_level h p sb hsb⟩
+
+/-- What this means for each collected line AT ITS OWN CALL (the property's reading: "below the level in force
+    … never emitted"): if the line was collected from the origin that created the tracer while the levels were
+    still those of the creation, it was at or above the level in force for its origin when it was logged. -/
+theorem collected_line_enabled_at_its_call_partial {s : St} (h : Reachable s) (p : Nat) (sb : Sub)
+    (hsb : sb ∈ s.subs p) (x : Collected) (hx : x ∈ sb.tr.logs)
+    (horg : x.pkg = sb.tr.pkg) (hlv : x.lv = sb.tr.lv) : enabled x.lv x.pkg x.e.lvl = true := by
+  obtain ⟨⟨hen, hsev⟩, _⟩ := (tcinv_reachable h).c2 p sb hsb
+  rw [horg, hlv]
+  exact enabled_mono hen (isSeverity_ge (hsev x hx))
+
+/-- Without the second hypothesis the statement is FALSE on the code: `SetLogLevel(error)` between `AddTracer`
+    and a `tracer.Debug(…)` — the Debug line is collected and submitted (the decision was taken once, at
+    `AddTracer`) although error was in force for its origin when it was logged. -/
+theorem not_collected_line_enabled_after_level_change :
+    ¬ ∀ s, Reachable s → ∀ p sb, sb ∈ s.subs p → ∀ x ∈ sb.tr.logs, x.pkg = sb.tr.pkg →
+        enabled x.lv x.pkg x.e.lvl = true := by
+  intro hall
+  have := hall ((run (St.init 4 false ⟨1, false, []⟩) demoRaise).get (by decide))
+    (reachable_run (Reachable.init _ _ _) (Option.some_get _).symm) 0
+    ⟨⟨7, 2, 1, 30, some []⟩, ⟨[⟨⟨7, 2, 1, 30⟩, some 0, ⟨5, false, []⟩⟩], ⟨1, false, []⟩, some 0⟩⟩ (by decide)
+    ⟨⟨7, 2, 1, 30⟩, some 0, ⟨5, false, []⟩⟩ (by decide) rfl
+  revert this; decide
+
+/-- Without the first hypothesis it is false as well: a tracer created by a package whose level is trace and
+    used from a package that has no entry (global level info) carries that package's Debug line. -/
+theorem not_collected_line_enabled_from_other_origin :
+    ¬ ∀ s, Reachable s → ∀ p sb, sb ∈ s.subs p → ∀ x ∈ sb.tr.logs, x.lv = sb.tr.lv →
+        enabled x.lv x.pkg x.e.lvl = true := by
+  intro hall
+  have := hall ((run (St.init 4 false ⟨3, true, [(0, 1)]⟩) demoOther).get (by decide))
+    (reachable_run (Reachable.init _ _ _) (Option.some_get _).symm) 0
+    ⟨⟨7, 2, 1, 30, some []⟩, ⟨[⟨⟨7, 2, 1, 30⟩, some 1, ⟨3, true, [(0, 1)]⟩⟩], ⟨3, true, [(0, 1)]⟩, some 0⟩⟩ (by decide)
+    ⟨⟨7, 2, 1, 30⟩, some 1, ⟨3, true, [(0, 1)]⟩⟩ (by decide) rfl
+  revert this; decide
+
 /-! ### Constants regenerated from the source -/
 
 /-- The severities are ordered as the property reads them ("at or above"). -/
@@ -416,11 +572,15 @@ def l2 : Line := ⟨2, 5, 1, 20, none⟩
 def lt : Line := ⟨9, 4, 1, 30, some [⟨7, 1, 1, 30⟩, ⟨8, 2, 1, 30⟩]⟩
 
 /-- Two identical lines from one goroutine, merged into one write with one repetition; second call finds
-    the flag already set; then Shutdown drains and the writer exits. -/
+    the flag already set; a second goroutine, from a package whose own level is trace (the global level is
+    info), gets a tracer, collects three lines and submits them; then Shutdown drains and the writer exits. -/
 def demoMerge : List Act :=
-  [.p 0 (.call l1 (some 0) true), .p 0 (.filter true), .p 0 .enq, .p 0 (.flag true), .p 0 .tok,
+  [.setPkgs [(5, 1)],
+   .p 0 (.call l1 (some 0) true), .p 0 (.filter true), .p 0 .enq, .p 0 (.flag true), .p 0 .tok,
    .p 0 (.call l1 (some 0) true), .p 0 (.filter true), .p 0 .enq, .p 0 (.flag false),
    .w .token, .w .unset, .w .slot, .w (.deq l1), .w (.deq l1), .w .empty, .w .timer,
+   .addTracer 1 (some 5) true, .collect 1 ⟨7, 1, 1, 30⟩ (some 5), .collect 1 ⟨8, 2, 1, 30⟩ (some 5),
+   .collect 1 ⟨9, 4, 1, 30⟩ (some 5),
    .p 1 (.submit lt), .p 1 .enq, .p 1 (.flag true), .p 1 .tok,
    .shutdown, .w .shut, .w (.fdeq lt), .w .ftimeout]
 
@@ -482,14 +642,49 @@ example : mergeRuns [l1, { l1 with file := 2 }, { l1 with line := 11 }, { l1 wit
 /-- The hypotheses of `writer_counts_only_plain_lines` / `tracer_submissions_exactly_once` are met with a
     submission directly behind an identical plain line in one batch. -/
 def demoMixed : List Act :=
-  [.p 0 (.call l1 (some 0) true), .p 0 (.filter true), .p 0 .enq, .p 0 (.flag true), .p 0 .tok,
+  [.setPkgs [(5, 1)],
+   .p 0 (.call l1 (some 0) true), .p 0 (.filter true), .p 0 .enq, .p 0 (.flag true), .p 0 .tok,
    .p 0 (.call l1 (some 0) true), .p 0 (.filter true), .p 0 .enq, .p 0 (.flag false),
+   .addTracer 0 (some 5) true, .collect 0 ⟨1, 3, 1, 10⟩ (some 5),
    .p 0 (.submit l1t), .p 0 .enq, .p 0 (.flag false),
    .w .token, .w .unset, .trigger, .w (.deq l1), .w (.deq l1), .w (.deq l1t), .w .empty]
-example : (run (St.init 8 true ⟨3, false, []⟩) (demoMixed.take 17)).map (fun s => (s.w.cur, s.w.dups)) =
+example : (run (St.init 8 true ⟨3, false, []⟩) (demoMixed.take 20)).map (fun s => (s.w.cur, s.w.dups)) =
     some (some l1, 1) := by decide
 example : (run (St.init 8 true ⟨3, false, []⟩) demoMixed).map (fun s => s.out) =
     some [(l1, 1), (l1t, 0)] := by decide
+
+/-- The level decision of `AddTracer` in the three states of the package levels, at several global levels:
+    inactive (global level decides); active with the caller listed (its own level decides, whatever the global
+    level is); active with the caller NOT listed (the global level decides — `fastcheck` has let everything
+    through). -/
+example :
+    addTracer ⟨3, false, []⟩ false true (some 8) false = false ∧ addTracer ⟨1, false, []⟩ false true (some 8) false = true ∧
+    addTracer ⟨0, false, [(8, 6)]⟩ false true (some 8) false = true ∧
+    addTracer ⟨3, true, [(7, 1)]⟩ false true (some 7) false = true ∧ addTracer ⟨6, true, [(7, 0)]⟩ false true (some 7) false = true ∧
+    addTracer ⟨1, true, [(7, 2)]⟩ false true (some 7) false = false ∧ addTracer ⟨0, true, [(7, 7)]⟩ false true (some 7) false = false ∧
+    addTracer ⟨3, true, [(7, 1)]⟩ false true (some 8) false = false ∧ addTracer ⟨2, true, []⟩ false true (some 8) false = false ∧
+    addTracer ⟨6, true, [(7, 1), (9, 1)]⟩ false true (some 8) false = false ∧
+    addTracer ⟨1, true, [(7, 5)]⟩ false true (some 8) false = true ∧ addTracer ⟨0, true, [(7, 5)]⟩ false true (some 8) false = true := by
+  decide
+/-- In the interleaving model: package levels active, caller not listed, global level info — no tracer can be
+    handed out (the step is not enabled), the call returns nil; the listed package gets one. -/
+example : (step (St.init 4 false ⟨3, true, [(7, 1)]⟩) (.addTracer 0 (some 8) true)).isNone = true ∧
+    (step (St.init 4 false ⟨3, true, [(7, 1)]⟩) (.addTracer 0 (some 8) false)).isSome = true ∧
+    (step (St.init 4 false ⟨3, true, [(7, 1)]⟩) (.addTracer 0 (some 7) true)).isSome = true := by decide
+/-- The hypotheses of `live_tracer_was_created_at_trace_level` / `submission_lines_at_or_above_creation_level`
+    are met: in `demoMerge` goroutine 1 holds a live tracer with two collected lines (step 20), and its
+    submission is recorded with the levels of the creation. -/
+example : ((run (St.init 2 false ⟨3, false, []⟩) (demoMerge.take 20)).bind (·.tr 1)).map (fun t => (t.logs.map (·.e.lvl), t.lv, t.pkg)) =
+    some ([1, 2], ⟨3, true, [(5, 1)]⟩, some 5) := by decide
+example : (run (St.init 2 false ⟨3, false, []⟩) demoMerge).map (fun s => (s.subs 1).map (fun sb => (sb.line, sb.tr.lv, sb.tr.pkg))) =
+    some [(lt, ⟨3, true, [(5, 1)]⟩, some 5)] := by decide
+/-- A second `AddTracer` on a context that carries a tracer returns nil; Submit needs a live tracer. -/
+example : (run (St.init 2 false ⟨1, false, []⟩) [.addTracer 0 (some 0) true, .addTracer 0 (some 0) true]).isNone = true ∧
+    (run (St.init 2 false ⟨1, false, []⟩) [.addTracer 0 (some 0) true, .addTracer 0 (some 0) false]).isSome = true ∧
+    (run (St.init 2 false ⟨1, false, []⟩) [.p 0 (.submit lt)]).isNone = true := by decide
+example : ownSeverity "Criticalf" = "CriticalLevel" ∧ ownSeverity "Info" = "InfoLevel" ∧ ownSeverity "Infof" = "InfoLevel" := by
+  decide
+example : fastcheck ⟨4, false, []⟩ 3 = false ∧ fastcheck ⟨4, false, []⟩ 4 = true ∧ fastcheck ⟨4, true, []⟩ 1 = true := by decide
 
 /-- Start with flags: the pairs of `-plog orga=debug,zz=trace,orga=ERROR,bad,orgb=info`: orga error (the later
     entry wins), zz trace, the malformed pair ends the reading (orgb is not read). An unknown `-log` name
@@ -506,9 +701,9 @@ example : lookupLevel "warning" = 4 ∧ lookupLevel "warn" = 0 ∧ lookupLevel "
 
 /-- The run checker: a conforming output passes, a lost / duplicated / filtered / reordered one fails. -/
 def exps0 : Nat → List Item := fun g =>
-  if g = 0 then [⟨1, 3, 0, .plain, [⟨some ⟨3, false, []⟩, true, 2⟩], []⟩,
-                 ⟨2, 2, 0, .plain, [⟨some ⟨3, false, []⟩, true, 1⟩], []⟩,
-                 ⟨3, 4, 0, .tracer, [⟨some ⟨3, false, []⟩, true, 1⟩], [7, 8]⟩] else []
+  if g = 0 then [⟨1, 3, 0, .plain, [⟨some ⟨3, false, []⟩, true, 2⟩], [], 3⟩,
+                 ⟨2, 2, 0, .plain, [⟨some ⟨3, false, []⟩, true, 1⟩], [], 2⟩,
+                 ⟨3, 4, 0, .tracer, [⟨some ⟨3, false, []⟩, true, 1⟩], [7, 8], 4⟩] else []
 example : checkRun 1 exps0 [⟨0, 1, 1, none⟩, ⟨0, 3, 0, some [7, 8]⟩] = .pass := by decide
 example : checkRun 1 exps0 [⟨0, 1, 0, none⟩, ⟨0, 3, 0, some [7, 8]⟩] = .fail "lost" 0 1 := by decide
 example : checkRun 1 exps0 [⟨0, 1, 2, none⟩, ⟨0, 3, 0, some [7, 8]⟩] = .fail "duplicated" 0 1 := by decide
@@ -518,10 +713,10 @@ example : checkRun 1 exps0 [⟨0, 1, 1, none⟩, ⟨0, 3, 0, some [7]⟩] = .fai
 /-- A plain line, then a submission and a second plain call of the same text (item ids 1 / 5 differ in the
     tracer bit only in the harness; here: distinct ids), submissions with different collected lines. -/
 def exps1 : Nat → List Item := fun g =>
-  if g = 0 then [⟨1, 3, 0, .plain, [⟨some ⟨3, false, []⟩, true, 1⟩], []⟩,
-                 ⟨5, 3, 0, .tracer, [⟨some ⟨3, false, []⟩, true, 1⟩], []⟩,
-                 ⟨5, 3, 0, .tracer, [⟨some ⟨3, false, []⟩, true, 2⟩], [7]⟩,
-                 ⟨1, 3, 0, .plain, [⟨some ⟨3, false, []⟩, true, 1⟩], []⟩] else []
+  if g = 0 then [⟨1, 3, 0, .plain, [⟨some ⟨3, false, []⟩, true, 1⟩], [], 3⟩,
+                 ⟨5, 3, 0, .tracer, [⟨some ⟨3, false, []⟩, true, 1⟩], [], 3⟩,
+                 ⟨5, 3, 0, .tracer, [⟨some ⟨3, false, []⟩, true, 2⟩], [7], 3⟩,
+                 ⟨1, 3, 0, .plain, [⟨some ⟨3, false, []⟩, true, 1⟩], [], 3⟩] else []
 example : checkRun 1 exps1 [⟨0, 1, 0, none⟩, ⟨0, 5, 0, some []⟩, ⟨0, 5, 0, some [7]⟩, ⟨0, 5, 0, some [7]⟩, ⟨0, 1, 0, none⟩] = .pass := by decide
 /-- the submission swallowed by the preceding plain line (`duplicates = 1`) -/
 example : checkRun 1 exps1 [⟨0, 1, 1, none⟩, ⟨0, 5, 0, some [7]⟩, ⟨0, 5, 0, some [7]⟩, ⟨0, 1, 0, none⟩] = .fail "tracer-lost" 0 5 := by decide
@@ -529,17 +724,41 @@ example : checkRun 1 exps1 [⟨0, 1, 1, none⟩, ⟨0, 5, 0, some [7]⟩, ⟨0, 
 example : checkRun 1 exps1 [⟨0, 1, 0, none⟩, ⟨0, 5, 0, some []⟩, ⟨0, 5, 1, some [7]⟩, ⟨0, 1, 0, none⟩] = .fail "trace" 0 5 := by decide
 /-- a submission that arrives with other entries than it collected, while nothing has to arrive (Shutdown
     requested during the call): still not accepted -/
-example : checkRun 1 (fun _ => [⟨5, 3, 0, .tracer, [⟨some ⟨3, false, []⟩, false, 1⟩], [7]⟩]) [⟨0, 5, 0, some [8]⟩] =
+example : checkRun 1 (fun _ => [⟨5, 3, 0, .tracer, [⟨some ⟨3, false, []⟩, false, 1⟩], [7], 3⟩]) [⟨0, 5, 0, some [8]⟩] =
     .fail "unexpected" 0 5 := by decide
-example : checkRun 1 (fun _ => [⟨5, 3, 0, .tracer, [⟨some ⟨3, false, []⟩, false, 1⟩], [7]⟩]) [] = .pass := by decide
+example : checkRun 1 (fun _ => [⟨5, 3, 0, .tracer, [⟨some ⟨3, false, []⟩, false, 1⟩], [7], 3⟩]) [] = .pass := by decide
+/-- A submission whose tracer lived (from `AddTracer` to `Submit`) under ONE configuration in which a line it
+    carries is below the level in force for its origin — package levels active, origin 0 not listed, global
+    level info, a Debug line among the collected ones — must not reach the adapter; with the origin listed at
+    trace it must; when the configuration changed during the tracer's life nothing is demanded either way. -/
+def exps3 (c : Option Levels) : Nat → List Item := fun _ => [⟨5, 4, 0, .tracer, [⟨c, true, 1⟩], [58], 2⟩]
+example : checkRun 1 (exps3 (some ⟨3, true, [(1, 1)]⟩)) [⟨0, 5, 0, some [58]⟩] = .fail "filtered" 0 5 := by decide
+example : checkRun 1 (exps3 (some ⟨3, true, [(1, 1)]⟩)) [] = .pass := by decide
+example : checkRun 1 (exps3 (some ⟨3, true, [(0, 1)]⟩)) [⟨0, 5, 0, some [58]⟩] = .pass := by decide
+example : checkRun 1 (exps3 (some ⟨3, true, [(0, 1)]⟩)) [] = .fail "tracer-lost" 0 5 := by decide
+example : checkRun 1 (exps3 (some ⟨2, true, [(1, 1)]⟩)) [⟨0, 5, 0, some [58]⟩] = .pass := by decide
+example : checkRun 1 (exps3 none) [⟨0, 5, 0, some [58]⟩] = .pass ∧ checkRun 1 (exps3 none) [] = .pass := by decide
 /-- `A B A` with `B` below the level in force: the two `A` lines arrive next to each other (and may have
     been merged); the greedy walk alone would call the second one a duplicate. -/
 def exps2 : Nat → List Item := fun _ =>
-  [⟨1, 3, 0, .plain, [⟨some ⟨3, false, []⟩, true, 1⟩], []⟩, ⟨2, 2, 0, .plain, [⟨some ⟨3, false, []⟩, true, 1⟩], []⟩,
-   ⟨1, 3, 0, .plain, [⟨some ⟨3, false, []⟩, true, 1⟩], []⟩]
+  [⟨1, 3, 0, .plain, [⟨some ⟨3, false, []⟩, true, 1⟩], [], 3⟩, ⟨2, 2, 0, .plain, [⟨some ⟨3, false, []⟩, true, 1⟩], [], 2⟩,
+   ⟨1, 3, 0, .plain, [⟨some ⟨3, false, []⟩, true, 1⟩], [], 3⟩]
 example : greedyProd 0 (exps2 0) [⟨1, none⟩, ⟨1, none⟩] = .fail "duplicated" 0 1 := by decide
 example : checkRun 1 exps2 [⟨0, 1, 1, none⟩] = .pass := by decide
 example : checkRun 1 exps2 [⟨0, 1, 2, none⟩] = .fail "duplicated" 0 1 := by decide
 example : checkRun 1 exps2 [⟨0, 1, 0, none⟩] = .fail "lost" 0 1 := by decide
+/-- `A B A` with `B` LOST also arrives as `A A`: not a duplicate of `A` (it is not emitted more often than the two
+    `A` items allow) — `B` is named as lost; a line that IS emitted too often stays a duplicate. -/
+def exps4 : Nat → List Item := fun _ =>
+  [⟨1, 3, 0, .plain, [⟨some ⟨3, false, []⟩, true, 1⟩], [], 3⟩, ⟨2, 3, 0, .plain, [⟨some ⟨3, false, []⟩, true, 1⟩], [], 3⟩,
+   ⟨1, 3, 0, .plain, [⟨some ⟨3, false, []⟩, true, 1⟩], [], 3⟩]
+example : greedyProd 0 (exps4 0) [⟨1, none⟩, ⟨1, none⟩] = .fail "duplicated" 0 1 := by decide
+example : checkRun 1 exps4 [⟨0, 1, 1, none⟩] = .fail "lost" 0 2 := by decide
+example : checkRun 1 exps4 [⟨0, 1, 0, none⟩, ⟨0, 2, 0, none⟩, ⟨0, 1, 0, none⟩] = .pass := by decide
+example : checkRun 1 exps4 [⟨0, 1, 1, none⟩, ⟨0, 2, 0, none⟩, ⟨0, 1, 0, none⟩] = .fail "duplicated" 0 1 := by decide
+/-- A submission that must not be emitted is named as such also when the walk along the items would get stuck earlier, at a legitimate `A A`
+    (`A B A` with `B` disabled). -/
+example : checkRun 1 (fun g => exps2 g ++ exps3 (some ⟨3, true, [(1, 1)]⟩) g) [⟨0, 1, 1, none⟩, ⟨0, 5, 0, some [58]⟩] =
+    .fail "filtered" 0 5 := by decide
 
 end PB.C20
